@@ -1,6 +1,7 @@
 import Tengo.Props.C20
 import Tengo.Props.C20Bytes
 import Tengo.Props.C20Bytes2
+import Tengo.Props.C20Stmt
 /-! C20: the token-level theorems (`C20`: token tables, semicolon rule, integer literal values, precedence
 climbing, token-level parse ∘ print) and the byte-level composition scanner ∘ printer ∘ parser (`C20Bytes`; `C20Bytes2`: literal operands and
-postfix chains), as one module for the checker. -/
+postfix chains; `C20Stmt`: statement lists, token level + printer layout), as one module for the checker. -/
